@@ -17,27 +17,40 @@ import (
 	"time"
 )
 
-var boundedClauses = []string{"never-panics", "argument-unchanged", "coverage-preserved", "idempotent", "unchanged-when-nothing-abuts", "classes-kept-apart", "restores-after-cut"}
-
-// defect classes the harness can tell apart (label -> clause)
-var boundedLabels = [][2]string{
-	{"never-panics", "table-has-join"},
-	{"coverage-preserved", "point-after-range-end-dropped"},
-	{"unchanged-when-nothing-abuts", "same-class-complement-pair-fused"},
+type boundedHarness struct {
+	prop    string
+	subject string   // obligation name prefix, e.g. gts.Repair
+	pos     string
+	file    string   // under /verif/bounded
+	pkgDir  string   // package directory under /repo the test file is injected into
+	test    string   // test function
+	clauses []string
+	labels  [][2]string // defect classes the harness can tell apart (clause, label)
 }
 
-func (e *Engine) boundedRepair(repo, verif, tier string, seed int) ([]*Obligation, map[string]interface{}) {
+var repairHarness = boundedHarness{prop: "C12", subject: "gts.Repair", pos: "feature.go", file: "repair_bounded_test.go", pkgDir: ".", test: "TestVerifBoundedRepair",
+	clauses: []string{"never-panics", "argument-unchanged", "coverage-preserved", "idempotent", "unchanged-when-nothing-abuts", "classes-kept-apart", "restores-after-cut"},
+	labels: [][2]string{
+		{"never-panics", "table-has-join"},
+		{"coverage-preserved", "point-after-range-end-dropped"},
+		{"unchanged-when-nothing-abuts", "same-class-complement-pair-fused"},
+	}}
+
+var cliHarness = boundedHarness{prop: "C15", subject: "main.commands", pos: "cmd/gts", file: "cli_bounded_test.go", pkgDir: "cmd/gts", test: "TestVerifBoundedCLI",
+	clauses: []string{"delete-removes-union", "delete-removes-union-e", "insert-once-per-site", "insert-once-per-site-e", "infix-once-per-site", "rotate-first-site-to-zero", "split-pieces-tile-input", "extract-each-site-once-in-order", "extract-v-unlocated-stretches"}}
+
+func (e *Engine) runBounded(h boundedHarness, repo, verif, tier string, seed int) ([]*Obligation, map[string]interface{}) {
 	info := map[string]interface{}{}
-	src := filepath.Join(verif, "bounded", "repair_bounded_test.go")
-	ov := filepath.Join(scratchDir, "bounded_overlay.json")
-	b, _ := json.Marshal(map[string]interface{}{"Replace": map[string]string{filepath.Join(repo, "zz_verif_bounded_test.go"): src}})
+	src := filepath.Join(verif, "bounded", h.file)
+	ov := filepath.Join(scratchDir, "bounded_overlay_"+h.prop+".json")
+	b, _ := json.Marshal(map[string]interface{}{"Replace": map[string]string{filepath.Join(repo, h.pkgDir, "zz_verif_bounded_test.go"): src}})
 	os.WriteFile(ov, b, 0o644)
 	timeout := "900s"
 	if tier == "thorough" {
 		timeout = "3600s"
 	}
-	cmd := exec.Command("go", "test", "-overlay", ov, "-vet=off", "-v", "-count=1", "-timeout", timeout, "-run", "^TestVerifBoundedRepair$", ".")
-	cmd.Dir = repo
+	cmd := exec.Command("go", "test", "-overlay", ov, "-vet=off", "-v", "-count=1", "-timeout", timeout, "-run", "^"+h.test+"$", ".")
+	cmd.Dir = filepath.Join(repo, h.pkgDir)
 	cmd.Env = append(os.Environ(), "GOFLAGS=-mod=mod", "GOPROXY=off", "GOSUMDB=off", "GOTOOLCHAIN=local", "VERIF_TIER="+tier, "VERIF_SEED="+strconv.Itoa(seed))
 	t0 := time.Now()
 	outB, err := cmd.CombinedOutput()
@@ -63,12 +76,12 @@ func (e *Engine) boundedRepair(repo, verif, tier string, seed int) ([]*Obligatio
 			}
 		}
 	}
-	info["bounded_cmd"] = "go test -overlay <zz_verif_bounded_test.go -> /verif/bounded/repair_bounded_test.go> -run TestVerifBoundedRepair . (VERIF_TIER=" + tier + ")"
+	info["bounded_cmd"] = "cd /repo/" + h.pkgDir + " && go test -overlay <zz_verif_bounded_test.go -> /verif/bounded/" + h.file + "> -run " + h.test + " . (VERIF_TIER=" + tier + ")"
 	info["bounded_stats"] = stats
 	info["bounded_seconds"] = dt
 	mk := func(name, text string) *Obligation {
-		return &Obligation{Name: "gts.Repair/bounded:" + name, Kind: "bounded", Func: "gts.Repair", Pos: "feature.go", Text: text, Props: []string{"C12"},
-			Result: SolverResult{Solver: "bounded-enumeration (go test on the real Repair)", Time: dt}}
+		return &Obligation{Name: h.subject + "/bounded:" + name, Kind: "bounded", Func: h.subject, Pos: h.pos, Text: text, Props: []string{h.prop},
+			Result: SolverResult{Solver: "bounded-enumeration (go test on the real code)", Time: dt}}
 	}
 	var obls []*Obligation
 	ran := mk("harness-ran", "the bounded harness built and ran to completion on the current tree")
@@ -85,24 +98,24 @@ func (e *Engine) boundedRepair(repo, verif, tier string, seed int) ([]*Obligatio
 	ran.Decided = "discharged"
 	ran.Result.Status = "unsat"
 	obls = append(obls, ran)
-	for _, cl := range boundedClauses {
-		o := mk(cl, "Repair satisfies clause '"+cl+"' on every table within the bound ("+stats+"), defect classes listed separately aside")
+	for _, cl := range h.clauses {
+		o := mk(cl, "clause '"+cl+"' holds on every input within the bound ("+stats+"), defect classes listed separately aside")
 		if f, ok := fails[cl+"/other"]; ok {
 			o.Decided = "failed"
 			o.Result.Status = "sat"
-			o.Result.Raw = f.n + " failing tables within the bound; first: " + f.example
+			o.Result.Raw = f.n + " failing inputs within the bound; first: " + f.example
 		} else {
 			o.Decided = "discharged"
 			o.Result.Status = "unsat"
 		}
 		obls = append(obls, o)
 	}
-	for _, cl := range boundedLabels {
-		o := mk(cl[0]+"/"+cl[1], "no table within the bound fails clause '"+cl[0]+"' in the way labelled '"+cl[1]+"'")
+	for _, cl := range h.labels {
+		o := mk(cl[0]+"/"+cl[1], "no input within the bound fails clause '"+cl[0]+"' in the way labelled '"+cl[1]+"'")
 		if f, ok := fails[cl[0]+"/"+cl[1]]; ok {
 			o.Decided = "failed"
 			o.Result.Status = "sat"
-			o.Result.Raw = f.n + " failing tables within the bound; first: " + f.example
+			o.Result.Raw = f.n + " failing inputs within the bound; first: " + f.example
 		} else {
 			o.Decided = "discharged"
 			o.Result.Status = "unsat"
